@@ -416,7 +416,18 @@ def process_node_fields(
             # Possible child field
             res = is_valid_child_field_type(ftype, node_base_type)
             if res == InvalidTypeReason.OK:
-                child_fields[f] = get_type_info(ftype)
+                type_info = get_type_info(ftype)
+
+                if (
+                    type_info.is_collection
+                    and isinstance(ftype, type)
+                    and issubclass(ftype, node_base_type)
+                ):
+                    # A node class may itself implement the Collection protocol
+                    # (__len__, __iter__, __contains__): the field still holds a single node
+                    type_info = FieldTypeInfo(False, ftype)
+
+                child_fields[f] = type_info
             else:
                 incorrect_fields.append((f.name, res.value, ftype))
         else:
